@@ -223,16 +223,21 @@ impl<K, V, A: Allocator> CaoHashMap<K, V, A> {
             if std::mem::needs_drop::<V>() {
                 std::ptr::drop_in_place(values.add(i));
             }
-        } else {
-            self.hashes_mut()[i] = h;
-            self.count += 1;
+            std::ptr::write(keys.add(i), key);
+            std::ptr::write(values.add(i), value);
+            return Ok(());
         }
-        std::ptr::write(keys.add(i), key);
-        std::ptr::write(values.add(i), value);
-        // delaying grow so that no grow is triggered if the key overrides an existing value
-        if Self::needs_grow(self.count, self.capacity) {
+        // no grow is triggered if the key overrides an existing value.
+        // grow before touching the table, so a failed allocation leaves the map as it was
+        // (always below the maximum load, so probing terminates)
+        if Self::needs_grow(self.count + 1, self.capacity) {
             self.grow()?;
         }
+        let i = self.find_ind(h, &key);
+        self.hashes_mut()[i] = h;
+        self.count += 1;
+        std::ptr::write(self.keys.as_ptr().add(i), key);
+        std::ptr::write(self.values.as_ptr().add(i), value);
         Ok(())
     }
 
